@@ -234,7 +234,8 @@ static void dumpGraph(Circuit &c, std::ostream &o, bool withKind) {
 	std::sort(nodes.begin(), nodes.end(), [](BaseNode *a, BaseNode *b) { return a->getId() < b->getId(); });
 	for (auto *n : nodes) {
 		o << "n " << n->getId();
-		if (withKind) o << " k=" << kindTag(n);
+		// T2: the node kind selects the requirement table; T1: the model only distinguishes Node_Signal (requirement: output type = driver type)
+		o << " k=" << (withKind ? kindTag(n) : std::string(dynamic_cast<Node_Signal*>(n) ? "fwd" : "other"));
 		o << " g=";
 		if (n->getGroup() == nullptr) o << "-";
 		else { auto it = l.groups.find(n->getGroup()); if (it == l.groups.end()) o << "X"; else o << it->second; }
@@ -300,6 +301,10 @@ static void dumpGraph(Circuit &c, std::ostream &o, bool withKind) {
 //     resizein <n> <k>   resizeout <n> <k>   bypass <n> <o> <i>   move <n> <group|->
 //     addclock <n> <clock|->   attach <n> <cp> <clock|->   setclock <n> <clock|->   detach <n> <cp>
 //     addref <n>   removeref <n>   destroy <n>
+//     clone <n>                   (Circuit::createUnconnectedClone: cloneUnconnected -> copyBaseToClone, root group)
+//     copysubnet <copyClocks 0|1> <outputs n.p,..|-> <inputs n.i,..|->   (Circuit::copySubnet on the real circuit; the model
+//                                 cannot follow the id renumbering: the driver validates the resulting REAL state with the extracted
+//                                 checker and continues from it)
 //     createdrv <c|r> <group|->   (createNode<Node_Signal2Clk / Node_Signal2Rst>)
 //     setdrv <c|r> <clock> <n>    (Clock::setLogicClockDriver / setLogicResetDriver)
 // ------------------------------------------------------------------------------------------------
@@ -390,6 +395,26 @@ struct Seq {
 					v.pop_back();
 					break;
 				}
+			} else if (op == "clone") {
+				c.createUnconnectedClone(node(w.at(1)));
+			} else if (op == "copysubnet") {
+				bool cc = w.at(1) == "1";
+				utils::StableSet<NodePort> ins, outs;
+				auto plist = [&](const std::string &l, bool isOut, utils::StableSet<NodePort> &dst) {
+					if (l == "-") return;
+					std::istringstream ls(l); std::string t;
+					while (std::getline(ls, t, ',')) {
+						auto d = t.find('.'); if (d == std::string::npos) throw Bad{};
+						BaseNode *n = byId(std::stoull(t.substr(0, d))); size_t p = std::stoull(t.substr(d + 1));
+						if (!n || p >= (isOut ? n->getNumOutputPorts() : n->getNumInputPorts())) throw Bad{};
+						dst.insert({ .node = n, .port = p });
+					}
+				};
+				plist(w.at(2), true, outs); plist(w.at(3), false, ins);
+				if (outs.empty()) throw Bad{};
+				utils::StableMap<BaseNode*, BaseNode*> map;
+				c.copySubnet(ins, outs, map, cc);
+				clocks.clear(); for (auto &k : c.getClocks()) clocks.push_back(k.get());      // copyClocks creates clocks
 			} else if (op == "createdrv") {
 				NodeGroup *g = ogroup(w.at(2));
 				BaseNode *n = w.at(1) == "c" ? (BaseNode*)c.createNode<Node_Signal2Clk>() : (BaseNode*)c.createNode<Node_Signal2Rst>();
@@ -468,6 +493,26 @@ struct Gen {
 			if (k < 5) return "create 3 1 1 r " + gs;
 			size_t ni = rng.below(4), no = rng.below(3), nc = rng.below(3) == 0 ? 1 + rng.below(2) : 0; if (ni + no == 0) no = 1;
 			return "create " + S(ni) + " " + S(no) + " " + S(nc) + " g " + gs;
+		}
+		if (r >= 13 && r < 16 && all.size() + 2 < maxNodes + 6) {                    // cloning
+			BaseNode *n = all[rng.below(all.size())];
+			if (rng.below(3) == 0) return "clone " + S(n->getId());
+			// copySubnet: a few outputs; stop at a few inputs of the closure
+			std::vector<NodePort> cand;
+			for (auto *m : all) for (size_t p = 0; p < m->getNumOutputPorts(); p++) cand.push_back({ .node = m, .port = p });
+			if (cand.empty()) return "clone " + S(n->getId());
+			std::string outs, ins;
+			size_t no = 1 + rng.below(2);
+			std::vector<BaseNode*> roots;
+			for (size_t k = 0; k < no; k++) { auto np = cand[rng.below(cand.size())]; outs += (outs.empty() ? "" : ",") + Seq::np(np); roots.push_back(np.node); }
+			for (auto *m : roots) for (size_t i = 0; i < m->getNumInputPorts(); i++)
+				if (m->getDriver(i).node && rng.below(3) == 0) ins += (ins.empty() ? "" : ",") + S(m->getId()) + "." + S(i);
+			// keep the copies small: the closure of random graphs can be the whole graph
+			size_t closure = 0; { std::set<BaseNode*> seen; std::vector<BaseNode*> st(roots.begin(), roots.end());
+				while (!st.empty()) { auto *x = st.back(); st.pop_back(); if (!seen.insert(x).second) continue; for (size_t i = 0; i < x->getNumInputPorts(); i++) if (x->getDriver(i).node) st.push_back(x->getDriver(i).node); }
+				closure = seen.size(); }
+			if (closure > 6) return "clone " + S(n->getId());
+			return std::string("copysubnet ") + (rng.coin() ? "1 " : "0 ") + outs + " " + (ins.empty() ? "-" : ins);
 		}
 		if (r < 9 + 3 && !q.clocks.empty() && rng.below(2) == 0) {          // logic drivers of clocks
 			std::vector<BaseNode*> dc, dr;
